@@ -1443,35 +1443,89 @@ def mutated_vars(prog, out=None):
     return out
 
 
-# reference implementation of the checker (used only to cross-check Coq's verdict and for diagnostics)
-def py_check(params, prog):
-    stm = []
+# taint inference (least sets closed under the rules the Coq checker `ok` validates) and the reference verdict
+def flat(prog, out=None):
+    out = [] if out is None else out
+    for s in prog:
+        if s[0] == 'if':
+            flat(s[1], out); flat(s[2], out)
+        elif s[0] == 'loop':
+            flat(s[1], out)
+        else:
+            out.append(s)
+    return out
 
-    def flat(b):
-        for s in b:
-            if s[0] == 'if':
-                flat(s[1]); flat(s[2])
-            elif s[0] == 'loop':
-                flat(s[1])
-            else:
-                stm.append(s)
-    flat(prog)
+
+def py_infer(params, prog):
+    stm = flat(prog)
     own, tr = set(params), set(params)
+    # reach: union of the connected components (over alias / load / store edges) that contain a seed
+    parent = {}
+
+    def find(x):
+        while parent.get(x, x) != x:
+            parent[x] = parent.get(parent[x], parent[x])
+            x = parent[x]
+        return x
+    for s in stm:
+        if s[0] in ('alias', 'load', 'store'):
+            a = find(s[1])
+            for y in s[2]:
+                b = find(y)
+                if a != b:
+                    parent[b] = a
+    roots = {find(p) for p in params}
+    for s in stm:
+        if s[0] in ('alias', 'load', 'store'):
+            for v in [s[1]] + list(s[2]):
+                if find(v) in roots:
+                    tr.add(v)
     changed = True
     while changed:
         changed = False
         for s in stm:
-            k = s[0]
-            if k in ('alias', 'load', 'store'):
-                vs = [s[1]] + list(s[2])
-                if any(v in tr for v in vs) and not all(v in tr for v in vs):
-                    tr.update(vs); changed = True
-                if k == 'alias' and any(y in own for y in s[2]) and s[1] not in own:
-                    own.add(s[1]); tr.add(s[1]); changed = True
-                if k == 'load' and any(y in tr for y in s[2]) and s[1] not in own:
-                    own.add(s[1]); changed = True
-    bad = [s[1] for s in stm if s[0] in ('mut', 'store') and s[1] in own]
+            if s[1] in own:
+                continue
+            if (s[0] == 'alias' and any(y in own for y in s[2])) or (s[0] == 'load' and any(y in tr for y in s[2])):
+                own.add(s[1]); tr.add(s[1]); changed = True
+    return sorted(own), sorted(tr)
+
+
+def py_check(params, prog):
+    own, tr = py_infer(params, prog)
+    own = set(own)
+    bad = [s[1] for s in flat(prog) if s[0] in ('mut', 'store') and s[1] in own]
     return (not bad), bad
+
+
+def coq_list(xs):
+    return '[' + '; '.join('%d' % x for x in xs) + ']'
+
+
+def gen_files(res, nparts=8):
+    """Coq text: `nparts` files GenC20_k defining the functions, and the master GenC20 collecting them"""
+    head = 'From Coq Require Import List NArith.\nFrom OdakV Require Import C20.Model.\nImport ListNotations.\nLocal Open Scope N_scope.\n'
+    order = sorted(range(len(res)), key=lambda i: -res[i]['nstmts'])
+    buckets = [[] for _ in range(nparts)]
+    load = [0] * nparts
+    for i in order:
+        k = load.index(min(load))
+        buckets[k].append(i)
+        load[k] += res[i]['nstmts'] + 20
+    parts = []
+    for k, b in enumerate(buckets):
+        lines = [head]
+        for i in sorted(b):
+            r = res[i]
+            own, tr = py_infer(r['params'], r['prog'])
+            lines.append('(* %s  (%s:%d) *)' % (r['name'], r['file'], r['line']))
+            lines.append('Definition f_%d : fn := {| f_id := %d; f_params := %s; f_own := %s; f_reach := %s;\n  f_body := %s |}.'
+                         % (i, i, coq_list(r['params']), coq_list(own), coq_list(tr), coq_block(r['prog'])))
+        lines.append('Definition part_%d : list fn := [%s].' % (k, '; '.join('f_%d' % i for i in sorted(b))))
+        parts.append(('GenC20_%d' % k, '\n'.join(lines) + '\n'))
+    master = head + ''.join('From Run Require Import GenC20_%d.\n' % k for k in range(nparts))
+    master += 'Definition all_fns : list fn := %s.\n' % ' ++ '.join('part_%d' % k for k in range(nparts))
+    return parts, master
 
 
 def translate_all(repo, tables):
